@@ -280,5 +280,5 @@ def selftest_cursor():
     for f in u.function_list:
         if f.name.startswith("fx_"):
             short_circuit_rule(rep, f)
-    fixtures.expect(rep, ["fx_scan_bad_order", "fx_scan_bad_le", "fx_copy_bad_term", "fx_idx_bad", "fx_peek_bad"],
-                    ["fx_scan_ok", "fx_copy_ok", "fx_copy_ok_term", "fx_idx_ok", "fx_peek_ok", "fx_loop_ok", "fx_tab_ok"], "R-CURSOR")
+    fixtures.expect(rep, ["fx_scan_bad_order", "fx_scan_bad_le", "fx_copy_bad_term", "fx_idx_bad", "fx_peek_bad", "fx_find_bad"],
+                    ["fx_scan_ok", "fx_copy_ok", "fx_copy_ok_term", "fx_idx_ok", "fx_peek_ok", "fx_loop_ok", "fx_tab_ok", "fx_find_ok"], "R-CURSOR")
